@@ -1,6 +1,8 @@
 pub mod c01;
 pub mod c04;
+pub mod c05;
 pub mod c06;
 pub mod c07;
+pub mod c08;
 pub mod c13;
 pub mod httpgen;
